@@ -144,9 +144,11 @@ PROPS = {
             E("ids", "e_ids.c", model="ids", quick=dict(cases=400, chunk=25), thorough=dict(cases=8000, seeds=4, chunk=100)),
         ],
         trusted_base=["atom layer (hdf/src/atom.c) and the file table / access records of hfile.c (refcount, attach); error stack and allocation failure not modelled",
+                      "failed entry points: Hopen of an unopenable path is an op of the model (answer FAIL, handle maps unchanged, DD group use count as the Tie-A flags HTPSTART_TAKES_DDGROUP_FIRST / HOPEN_ENDS_DDLIST_OF_FAILED_START / HTPSTART_FAILURE_RELEASES_DDGROUP say); the individual DD atoms and the failing starts of V / VS / GR / AN / SD / DFSD / DFAN / DFR8 on damaged files are checked on the implementation only (engine ids compiles atom.c into itself and reads every group's use count and atoms before and after each failing call; scenario failstart in a forked child)",
                       "V/VS/GR/AN/SD/bit-id handles are not modelled: double release, use after release and foreign ids are checked on the implementation by engine ids (ASan as memory oracle; wrong-kind calls also in a forked child)",
                       "special elements: the model knows the access elements a compressed / chunked element's information record holds itself and that the record is shared per file id (generated flag SPINFO_SHARED_PER_FILE_ID); bytes, chunk cache, Vset session of the chunk table and the SD/GR/VS sessions over two ids of one path are checked on the implementation only (engine ids, scenarios hshare/sd2/gr2/vs2 in forked children)"],
-        assumptions=["single-threaded; fewer than 2^32 nested HAinit_group calls per group; fewer than 2^28 HAregister_atom calls per group and process"],
+        assumptions=["single-threaded; fewer than 2^32 nested HAinit_group calls per group; fewer than 2^28 HAregister_atom calls per group and process",
+                     "damaged files are made so that the failing call fails CLEANLY (descriptors beyond the end of the file, unknown special codes, missing parts): description records cut short and cyclic chains of empty DD blocks are crafted-input robustness, not handle safety (DESIGN 5/C13 observations)"],
     ),
     "C16": dict(
         lean_props=["H4.Props.C16", "H4.Props.C16Fn"],
